@@ -171,8 +171,8 @@ def feature(line):
 
 
 def ok_line(line):
-    if "\t" in line or "\n" in line or "!!" in line or "\r" in line or "$$" in line:
-        return False      # (`$$`, escaped or not: the pid differs between entry points by construction)
+    if "\t" in line or "\n" in line or "!!" in line or "\r" in line or "$$" in line.replace("\\", ""):
+        return False      # (`$$`, also written `\$\$` - C01's open ESC family expands it: the pid differs between entry points by construction)
     import re
     if re.search(r"\$[0-9@]", line) or re.search(r"\$\{[0-9@]", line):
         return False      # positional parameters mean different things by construction
